@@ -326,8 +326,8 @@ func directedRouterRun(rng *rand.Rand, tag int64) *vh.RouterRun {
 	case 1:
 		at := 1 + rng.Intn(3000)
 		routes := []vh.RouteSpec{
+			// (the only route: a later route that matches would be taken while this one is still undecided)
 			{Sets: [][]vh.Matcher{{{K: "not", V: "Y", W: "Y", Sub: [][]vh.Matcher{{thr(at, "E")}}}}}, Hs: []vh.HandlerSpec{{K: "term"}}},
-			{Sets: [][]vh.Matcher{}, Hs: []vh.HandlerSpec{{K: "term"}}},
 		}
 		return &vh.RouterRun{Cfg: &vh.RouterCfg{Lists: [][]vh.RouteSpec{routes}}, Scale: 1, Slen: at + rng.Intn(500), EndKind: "eof", Pulls: []int{1 + rng.Intn(at), 2048, 2048}, Tag: tag}
 	case 3:
